@@ -1,8 +1,9 @@
 import PfModel.DriverLib
 import PfModel.Model.Typing
-/-! Driver for C16 (`typing.compat`, `typing.pipeline`). Run: `lake env lean --run Driver/C16.lean < requests.jsonl`.
+import PfModel.Model.TypingPipe
+/-! Driver for C16 (`typing.compat`, `typing.pipeline`, `typing.desc`). Run: `lake env lean --run Driver/C16.lean < requests.jsonl`.
 
-Annotation grammar (JSON): `"int" | "bool" | "float" | "str" | "bytes" | "None" | "Any" | "NoAnn" | "ndarray" | "T"`
+Annotation grammar (JSON): `"int" | "bool" | "float" | "str" | "bytes" | "None" | "A" | "B" (user classes, `B(A)`) | "Any" | "NoAnn" | "ndarray" | "T"`
 (free TypeVar), `{"g": "list"|"set"|"tuple"|"dict", "a": [ty..]}`, `{"u": [ty..]}`, `{"an": ty}`, `{"arr": ty}`,
 `{"tvb": ty}` (bound TypeVar), `{"tvc": [ty..]}` (constrained TypeVar). -/
 open Lean PF.Drv PF.Typing
@@ -20,6 +21,8 @@ partial def getTy (j : Json) : R Ty := do
   | .str "str" => return .base .str
   | .str "bytes" => return .base .bytes
   | .str "None" => return .base .none
+  | .str "A" => return .base .clsA
+  | .str "B" => return .base .clsB
   | .str "Any" => return .any
   | .str "NoAnn" => return .noann
   | .str "ndarray" => return .ndarr
@@ -49,6 +52,79 @@ def getEdge (j : Json) : R Edge := do
   return { param := ← strF j "param", out := ← getWfTy (← fld j "out"), inp := ← getWfTy (← fld j "inp"),
            prod := ← optF getMSpec j "prod", cons := ← optF getMSpec j "cons" }
 
+def putBase : Base → String
+  | .int => "int" | .bool => "bool" | .float => "float" | .str => "str" | .bytes => "bytes" | .none => "None"
+  | .clsA => "A" | .clsB => "B"
+def putGen : Gen → String
+  | .list => "list" | .set => "set" | .tuple => "tuple" | .dict => "dict"
+
+partial def putTy : Ty → Json
+  | .base b => jStr (putBase b)
+  | .any => jStr "Any"
+  | .noann => jStr "NoAnn"
+  | .ndarr => jStr "ndarray"
+  | .tvFree => jStr "T"
+  | .gen g ts => jObj [("g", jStr (putGen g)), ("a", jList putTy ts)]
+  | .union ts => jObj [("u", jList putTy ts)]
+  | .annot t => jObj [("an", putTy t)]
+  | .array t => jObj [("arr", putTy t)]
+  | .tvBound t => jObj [("tvb", putTy t)]
+  | .tvConstr ts => jObj [("tvc", jList putTy ts)]
+
+/-- a hint: an annotation or `"UNRES"` (`Unresolvable`) -/
+def getHint (j : Json) : R Hint :=
+  match j with
+  | .str "UNRES" => .ok .unres
+  | _ => do return .ty (← getWfTy j)
+
+def putHint : Hint → Json
+  | .unres => jStr "UNRES"
+  | .ty t => putTy t
+
+/-- the `return` hint: `null` (missing), `"UNRES"`, `{"variadic": ty}` (`tuple[ty, ...]`) or an annotation -/
+def getRet (j : Json) : R RetHint :=
+  match j with
+  | .null => .ok .missing
+  | .str "UNRES" => .ok .unres
+  | _ =>
+    match fld? j "variadic" with
+    | some t => do return .variadic (← getWfTy t)
+    | none => do return .ty (← getWfTy j)
+
+def getKind (j : Json) : R Kind :=
+  match j with
+  | .str "plain" => .ok .plain
+  | .str "picker" => .ok .picker
+  | .str "nested" => .ok .nested
+  | _ =>
+    match fld? j "cls" with
+    | some t => do return .cls (← getWfTy t)
+    | none => .error s!"unknown kind {j.compress}"
+
+def getFunc (j : Json) : R Func := do
+  let f : Func := { outs := ← listF asStr j "outs", outIsTuple := ← boolF j "out_tuple", params := ← listF asStr j "params",
+                    bound := ← listF asStr j "bound", renames := ← listF (asPair asStr asStr) j "renames",
+                    phints := ← listF (asPair asStr getHint) j "phints", ret := ← getRet (← fld j "ret"),
+                    kind := ← getKind (← fld j "kind"), mapspec := ← optF getMSpec j "mapspec" }
+  if f.wf then return f else .error s!"function description outside the modelled fragment: {j.compress}"
+
+def putAnn (d : List (String × Hint)) : Json := jList (fun kv => Json.arr #[jStr kv.1, putHint kv.2]) d
+
+def putCEdge (c : CEdge) : Json :=
+  let cls : List (String × Json) :=
+    match c.toEdge? with
+    | some e => [("resolved", jBool true), ("reduced", jBool (axisIsReduced e)), ("generated", jBool (mapspecIsGenerated e)),
+                 ("internal", jBool (withInternalShape e)), ("cmp_out", putTy (wrapOut e)), ("ok", jBool (edgeOk e))]
+    | none =>
+      let e : Edge := ⟨c.param, .noann, .noann, c.pm, c.cm⟩
+      [("resolved", jBool false), ("generated", jBool (mapspecIsGenerated e)), ("internal", jBool (withInternalShape e)),
+       ("cmp_out", match c.out with
+                   | .ty o => putTy (wrapOut { e with out := o })
+                   | .unres => jStr "UNRES"),
+       ("ok", jBool true)]
+  jObj ([("prod", jNat c.prod), ("cons", jNat c.cons), ("param", jStr c.param), ("out", putHint c.out), ("inp", putHint c.inp),
+         ("warns", jBool c.warns)] ++ cls)
+
 def putOutcome : Outcome → Json
   | .ok => jStr "ok"
   | .typeError => jStr "TypeError"
@@ -65,6 +141,13 @@ def handle (m : String) (a : Json) : R Json := do
                  ("edges", jList (fun e => jObj [("reduced", jBool (axisIsReduced e)), ("generated", jBool (mapspecIsGenerated e)),
                                                  ("internal", jBool (withInternalShape e)), ("wrapped", jBool (axisIsReduced e && !isObjArr e.out && !(match e.out with | .noann => true | _ => false))),
                                                  ("ok", jBool (edgeOk e))]) es)]
+  | "typing.desc" =>
+    let fs ← listF getFunc a "funcs"
+    let v ← boolF a "validate"
+    return jObj [("outcome", putOutcome (constructP v fs)),
+                 ("params", jList (fun f => putAnn (paramAnnotations f)) fs),
+                 ("outputs", jList (fun f => putAnn (outputAnnotation f)) fs),
+                 ("visited", jList putCEdge (visit fs))]
   | _ => .error s!"unknown entry {m}"
 
 def main : IO Unit := loop handle
